@@ -167,6 +167,82 @@ Section Yaml.
       cbn [length] in L.
       destruct (fold_left _ _ _) as [[i r] ok]. exact L.
   Qed.
+
+  (* ---------------------------------------------------------------- properties in a calibration file *)
+  Hypothesis properties_ok : text_ok key_properties.
+
+  Definition other_keys (l : list (bytes * ynode)) : Prop :=
+    Forall (fun p => text_ok (fst p) /\ bytes_eqb (fst p) key_properties = false) l.
+
+  Definition mk_pair (p : bytes * ynode) : ynode * ynode := (YScalar (fst p) YAny, snd p).
+  Definition rt_pair (p : ynode * ynode) : ynode * ynode := (rt (fst p), rt (snd p)).
+
+  Lemma rt_other_key p :
+    text_ok (fst p) /\ bytes_eqb (fst p) key_properties = false ->
+    is_properties_key (fst (rt_pair (mk_pair p))) = false.
+  Proof.
+    intros [H1 H2]. unfold rt_pair, mk_pair. cbn [fst].
+    destruct (rt_scalar (fst p) YAny H1) as [st' [E _]]. rewrite E. exact H2.
+  Qed.
+  Lemma rt_properties_key st0 :
+    exists st', rt (YScalar key_properties st0) = YScalar key_properties st'.
+  Proof. destruct (rt_scalar key_properties st0 properties_ok) as [st' [E _]]. eauto. Qed.
+
+  Lemma global_skip : forall l st, other_keys l ->
+      fold_left (fun (st : node * bool) p =>
+                   let '(r, ok) := st in
+                   if negb ok then st
+                   else if is_properties_key (fst p) then yaml_import (snd p) r else st)
+                (map rt_pair (map mk_pair l)) st = st.
+  Proof.
+    induction l as [|p l IH]; intros st H; [reflexivity|].
+    inversion H; subst. cbn [map fold_left]. rewrite (rt_other_key p) by assumption.
+    destruct st as [r ok]. destruct (negb ok); now apply IH.
+  Qed.
+  Lemma cal_skip : forall l found, other_keys l ->
+      fold_left (fun (found : option ynode) p => if is_properties_key (fst p) then Some (snd p) else found)
+                (map rt_pair (map mk_pair l)) found = found.
+  Proof.
+    induction l as [|p l IH]; intros found H; [reflexivity|].
+    inversion H; subst. cbn [map fold_left]. rewrite (rt_other_key p) by assumption. now apply IH.
+  Qed.
+
+  (* global properties written by vnacal_save and read by vnacal_load *)
+  Theorem calfile_global_properties_rt pre post t :
+    other_keys pre -> other_keys post -> wf t -> tree_ok t ->
+    good (load_global_properties (rt (save_mapping pre post t)) NNull) t.
+  Proof.
+    intros Hpre Hpost Hw Ht. unfold save_mapping. rewrite rt_mapping.
+    unfold load_global_properties.
+    change (fun p : bytes * ynode => (YScalar (fst p) YAny, snd p)) with mk_pair.
+    change (fun p : ynode * ynode => (rt (fst p), rt (snd p))) with rt_pair.
+    rewrite map_app, fold_left_app, global_skip by assumption.
+    cbn [map fold_left]. rewrite global_skip by assumption.
+    unfold rt_pair. cbn [fst snd negb].
+    destruct (rt_properties_key YAny) as [st' E]. rewrite E.
+    cbn [is_properties_key]. rewrite bytes_eqb_refl. now apply yaml_roundtrip.
+  Qed.
+
+  (* per-calibration properties *)
+  Theorem calfile_calibration_properties_rt pre post t :
+    other_keys pre -> other_keys post -> wf t -> tree_ok t ->
+    good (load_calibration_properties (rt (save_mapping pre post t))) t.
+  Proof.
+    intros Hpre Hpost Hw Ht. unfold save_mapping. rewrite rt_mapping.
+    unfold load_calibration_properties.
+    change (fun p : bytes * ynode => (YScalar (fst p) YAny, snd p)) with mk_pair.
+    change (fun p : ynode * ynode => (rt (fst p), rt (snd p))) with rt_pair.
+    rewrite map_app, fold_left_app, cal_skip by assumption.
+    cbn [map fold_left]. rewrite cal_skip by assumption.
+    unfold rt_pair. cbn [fst snd].
+    destruct (rt_properties_key YAny) as [st' E]. rewrite E.
+    cbn [is_properties_key]. rewrite bytes_eqb_refl. now apply yaml_roundtrip.
+  Qed.
+
+  (* the public importers replace whatever the root held (DP2 fixed) *)
+  Theorem import_document_replaces root t :
+    wf t -> tree_ok t -> good (import_document (rt (yaml_export t)) root) t.
+  Proof. intros Hw Ht. unfold import_document. rewrite vdelete_dot. now apply yaml_roundtrip. Qed.
 End Yaml.
 
 (* the hypotheses are satisfiable: the "ideal" round trip of YamlModel meets them for every text *)
@@ -209,3 +285,21 @@ Definition example_tree : node :=
 Example example_tree_roundtrip :
   fst (yaml_import (yaml_rt_ideal (yaml_export example_tree)) NNull) = example_tree.
 Proof. vm_compute. reflexivity. Qed.
+
+(* satisfiability of the calibration-file theorems: the ideal round trip, any other keys *)
+Theorem calfile_properties_rt_ideal pre post t :
+  other_keys (fun _ => True) pre -> other_keys (fun _ => True) post -> wf t ->
+  good (load_global_properties (yaml_rt_ideal (save_mapping pre post t)) NNull) t /\
+  good (load_calibration_properties (yaml_rt_ideal (save_mapping pre post t))) t.
+Proof.
+  intros Hpre Hpost Hw.
+  assert (Ht : tree_ok (fun _ => True) t).
+  { clear. induction t as [| v | kv IH | vec al IH] using node_ind'; try exact I.
+    - apply tree_ok_map. induction IH as [|[k v] r H _ IHr]; constructor; [split; [exact I|exact H]|exact IHr].
+    - apply tree_ok_list. exact IH. }
+  split.
+  - apply (calfile_global_properties_rt yaml_rt_ideal (fun _ => True) rt_ideal_scalar rt_ideal_mapping
+             rt_ideal_sequence I I pre post t Hpre Hpost Hw Ht).
+  - apply (calfile_calibration_properties_rt yaml_rt_ideal (fun _ => True) rt_ideal_scalar rt_ideal_mapping
+             rt_ideal_sequence I I pre post t Hpre Hpost Hw Ht).
+Qed.
